@@ -63,6 +63,75 @@ end NeoModel.VmAcct
 
 namespace NeoModel.VmAcct
 
+theorem clone_len : ∀ (f : Nat),
+    (∀ h id h' id', cloneStruct f h id = some (h', id') → h.length ≤ h'.length) ∧
+    (∀ h xs h' xs', cloneList f h xs = some (h', xs') → h.length ≤ h'.length) := by
+  intro f
+  induction f with
+  | zero => exact ⟨fun h id h' id' hc => by simp [cloneStruct] at hc, fun h xs h' xs' hc => by simp [cloneList] at hc⟩
+  | succ f ih =>
+    obtain ⟨ihS, ihL⟩ := ih
+    constructor
+    · intro h id h' id' hc
+      simp only [cloneStruct] at hc
+      cases hl : cloneList f h (chOf h id) with
+      | none => simp [hl] at hc
+      | some p =>
+        obtain ⟨h1, ch'⟩ := p
+        simp only [hl, Option.some.injEq, Prod.mk.injEq] at hc
+        obtain ⟨rfl, rfl⟩ := hc
+        have := ihL h _ h1 ch' hl
+        simp; omega
+    · intro h xs h' xs' hc
+      cases xs with
+      | nil => simp only [cloneList, Option.some.injEq, Prod.mk.injEq] at hc; rw [← hc.1]; exact Nat.le_refl _
+      | cons x t =>
+        have plain : (match cloneList f h t with
+            | none => none
+            | some (h2, xs') => some (h2, x :: xs')) = some (h', xs') → h.length ≤ h'.length := by
+          intro hc
+          cases hl : cloneList f h t with
+          | none => simp [hl] at hc
+          | some p =>
+            obtain ⟨h2, t'⟩ := p
+            simp only [hl, Option.some.injEq, Prod.mk.injEq] at hc
+            rw [← hc.1]; exact ihL h t h2 t' hl
+        cases x with
+        | prim => simp only [cloneList] at hc; exact plain hc
+        | arr a => simp only [cloneList] at hc; exact plain hc
+        | map a => simp only [cloneList] at hc; exact plain hc
+        | str d =>
+          simp only [cloneList] at hc
+          cases hs : cloneStruct f h d with
+          | none => simp [hs] at hc
+          | some p =>
+            obtain ⟨h1, d'⟩ := p
+            simp only [hs] at hc
+            cases hl : cloneList f h1 t with
+            | none => simp [hl] at hc
+            | some q =>
+              obtain ⟨h2, t'⟩ := q
+              simp only [hl, Option.some.injEq, Prod.mk.injEq] at hc
+              rw [← hc.1]
+              exact Nat.le_trans (ihS h d h1 d' hs) (ihL h1 t h2 t' hl)
+
+theorem cloneIfStruct_len (w : W) (x x' : Item) (isS : Bool) (w' : W) (h : w.cloneIfStruct x = some (x', isS, w')) :
+    w.c.heap.length ≤ w'.c.heap.length := by
+  unfold W.cloneIfStruct at h
+  cases x with
+  | str id =>
+    simp only at h
+    cases hc : cloneStruct cloneFuel w.c.heap id with
+    | none => simp [hc] at h
+    | some p =>
+      obtain ⟨h1, id'⟩ := p
+      simp only [hc, Option.some.injEq, Prod.mk.injEq] at h
+      obtain ⟨_, _, rfl⟩ := h
+      exact (clone_len cloneFuel).1 _ _ _ _ hc
+  | prim => simp only [Option.some.injEq, Prod.mk.injEq] at h; rw [← h.2.2]; exact Nat.le_refl _
+  | arr a => simp only [Option.some.injEq, Prod.mk.injEq] at h; rw [← h.2.2]; exact Nat.le_refl _
+  | map a => simp only [Option.some.injEq, Prod.mk.injEq] at h; rw [← h.2.2]; exact Nat.le_refl _
+
 theorem ite_len (p : Prop) [Decidable p] (a b : W) (n : Nat) (ha : n ≤ a.c.heap.length) (hb : n ≤ b.c.heap.length) :
     n ≤ (if p then a else b).c.heap.length := by
   split <;> assumption
@@ -75,11 +144,180 @@ theorem execS_len (op : SOp) (hc : op.core = true) (w : W) (hok : op.okFor w) :
     ∀ out, execS op w = some out → w.c.heap.length ≤ out.w.c.heap.length := by
   intro out h
   cases op with
-  | packmap _ _ => cases hc
-  | unpack => cases hc
-  | keys => cases hc
-  | values => cases hc
-  | convert _ => cases hc
+  | packmap k dups =>
+    have loopLen : ∀ (ds : List Int) (ents : List Item) (w0 : W) (e' : List Item) (w0' : W),
+        packMapLoop ds ents w0 = some (e', w0') → w0'.c.heap.length = w0.c.heap.length := by
+      intro ds
+      induction ds with
+      | nil => intro ents w0 e' w0' h; simp only [packMapLoop, Option.some.injEq, Prod.mk.injEq] at h; rw [← h.2]
+      | cons d ds ih =>
+        intro ents w0 e' w0' h
+        simp only [packMapLoop] at h
+        split at h
+        · split at h
+          · rw [ih _ _ _ _ h]
+          · split at h
+            · cases h
+            · rw [ih _ _ _ _ h]; simp [W.addRefs]
+        · cases h
+    simp only [execS] at h
+    cases hp : w.pop with
+    | none => simp [hp] at h
+    | some r =>
+      obtain ⟨y, w1⟩ := r
+      simp only [hp] at h
+      have l1 := pop_len hp
+      split at h
+      · cases h
+      · split at h
+        · cases h
+        · rename_i ents w2 hl
+          simp only [okW, W.alloc, W.setHeap, W.pushNoRef, W.addRefs, Option.some.injEq] at h
+          subst h
+          have := loopLen _ _ _ _ _ hl
+          simp [Outcome.w, this, l1]
+  | values =>
+    have cpLen : ∀ (xs : List Item) (b : Bool) (w0 : W) (arr : List Item) (w0' : W),
+        cpValues xs b w0 = some (arr, w0') → w0.c.heap.length ≤ w0'.c.heap.length := by
+      intro xs
+      induction xs with
+      | nil => intro b w0 arr w0' h; cases b <;> (simp only [cpValues, Option.some.injEq, Prod.mk.injEq] at h; rw [← h.2]; exact Nat.le_refl _)
+      | cons x t ih =>
+        intro b w0 arr w0' h
+        cases b with
+        | true =>
+          simp only [cpValues] at h
+          cases hc : w0.cloneIfStruct x with
+          | none => simp [hc] at h
+          | some p =>
+            obtain ⟨cl, isS, w1⟩ := p
+            simp only [hc] at h
+            have l1 := cloneIfStruct_len w0 x cl isS w1 hc
+            cases hr : cpValues t true { w1 with c := w1.c.add cl } with
+            | none => simp [hr] at h
+            | some q =>
+              obtain ⟨r, w2⟩ := q
+              simp only [hr, Option.some.injEq, Prod.mk.injEq] at h
+              have := ih true _ r w2 hr
+              rw [← h.2]; simp only [length_add] at this; omega
+        | false =>
+          simp only [cpValues] at h
+          cases hc : w0.cloneIfStruct x with
+          | none => simp [hc] at h
+          | some p =>
+            obtain ⟨cl, isS, w1⟩ := p
+            simp only [hc] at h
+            have l1 := cloneIfStruct_len w0 x cl isS w1 hc
+            cases hr : cpValues t false (if isS = true then ({ w1 with c := (w1.c.rem x).add cl } : W) else w1) with
+            | none => simp [hr] at h
+            | some q =>
+              obtain ⟨r, w2⟩ := q
+              simp only [hr, Option.some.injEq, Prod.mk.injEq] at h
+              have := ih false _ r w2 hr
+              rw [← h.2]
+              cases isS with
+              | false => simp only [Bool.false_eq_true, if_false] at this; omega
+              | true => simp only [if_true, length_add, length_rem] at this; omega
+    simp only [execS] at h
+    cases hp : w.popNoRef with
+    | none => simp [hp] at h
+    | some r =>
+      obtain ⟨item, w1⟩ := r
+      simp only [hp] at h
+      have l1 := popNoRef_len hp
+      cases item with
+      | prim => simp at h
+      | arr id =>
+        simp only at h
+        split at h
+        · cases h
+        · rename_i arr w3 hcp
+          simp only [okW, W.alloc, W.setHeap, W.pushNoRef, Option.some.injEq] at h
+          subst h
+          have := cpLen _ _ _ _ _ hcp
+          simp only [W.setHeap, length_decRC] at this
+          simp [Outcome.w]; omega
+      | str id =>
+        simp only at h
+        split at h
+        · cases h
+        · rename_i arr w3 hcp
+          simp only [okW, W.alloc, W.setHeap, W.pushNoRef, Option.some.injEq] at h
+          subst h
+          have := cpLen _ _ _ _ _ hcp
+          simp only [W.setHeap, length_decRC] at this
+          simp [Outcome.w]; omega
+      | map id =>
+        simp only at h
+        split at h
+        · cases h
+        · rename_i arr w3 hcp
+          simp only [okW, W.alloc, W.setHeap, W.pushNoRef, Option.some.injEq] at h
+          subst h
+          have := cpLen _ _ _ _ _ hcp
+          have e : (if decide (rcOf (w1.setHeap (decRC w1.c.heap id)).c.heap id ≠ 0) = true then w1.setHeap (decRC w1.c.heap id)
+              else (w1.setHeap (decRC w1.c.heap id)).addRefs (-Int.ofNat ((chOf (w1.setHeap (decRC w1.c.heap id)).c.heap id).length / 2))).c.heap.length
+              = w1.c.heap.length := by
+            split <;> simp [W.setHeap, W.addRefs]
+          rw [e] at this
+          simp [Outcome.w]; omega
+  | unpack =>
+    simp only [execS] at h
+    cases hp : w.popNoRef with
+    | none => simp [hp] at h
+    | some r =>
+      obtain ⟨e, w1⟩ := r
+      simp only [hp] at h
+      have l1 := popNoRef_len hp
+      split at h
+      · cases h
+      · simp only [W.addRefs, W.setHeap, okW, Option.some.injEq] at h
+        subst h
+        simp only [Outcome.w, push_len]; apply ite_len <;> simp [l1]
+  | keys =>
+    simp only [execS] at h
+    cases hp : w.pop with
+    | none => simp [hp] at h
+    | some r =>
+      obtain ⟨y, w1⟩ := r
+      simp only [hp] at h
+      have l1 := pop_len hp
+      split at h
+      · cases h
+      · simp only [okW, W.alloc, W.setHeap, W.pushNoRef, W.addRefs, Option.some.injEq, reduceCtorEq] at h
+        rename_i heq
+        simp only [Option.some.injEq, Prod.mk.injEq] at heq
+        obtain ⟨_, rfl⟩ := heq
+        subst h; simp [Outcome.w, l1]
+      · cases h
+  | convert t =>
+    simp only [execS] at h
+    cases hp : w.pop with
+    | none => simp [hp] at h
+    | some r =>
+      obtain ⟨item, w1⟩ := r
+      simp only [hp] at h
+      have l1 := pop_len hp
+      cases item with
+      | prim => simp only [okW, Option.some.injEq] at h; subst h; simp [Outcome.w, l1]
+      | arr id =>
+        simp only at h
+        repeat' split at h
+        all_goals first
+          | (simp only [okW, Option.some.injEq] at h; subst h; simp [Outcome.w, W.alloc, W.setHeap, l1]; done)
+          | cases h
+      | str id =>
+        simp only at h
+        repeat' split at h
+        all_goals first
+          | (simp only [okW, Option.some.injEq] at h; subst h; simp [Outcome.w, W.alloc, W.setHeap, l1]; done)
+          | cases h
+      | map id =>
+        simp only at h
+        repeat' split at h
+        all_goals first
+          | (simp only [okW, Option.some.injEq] at h; subst h; simp [Outcome.w, W.alloc, W.setHeap, l1]; done)
+          | cases h
   | generic k j =>
     simp only [execS, Option.map_eq_some_iff] at h
     obtain ⟨w1, h1, rfl⟩ := h
@@ -96,18 +334,16 @@ theorem execS_len (op : SOp) (hc : op.core = true) (w : W) (hok : op.okFor w) :
       | some r2 =>
         obtain ⟨arr, w2⟩ := r2
         simp only [hp2] at h
-        have hns : ∀ id, item ≠ .str id := by
-          intro id e
-          have : w.st = item :: w1.st := by
-            unfold W.pop at hp; split at hp
-            · cases hp
-            · rename_i x r hst; simp only [Option.some.injEq, Prod.mk.injEq] at hp; rw [hst, hp.1, ← hp.2]
-          apply hok id; rw [this, e]; rfl
-        rw [cloneIfStruct_of_not_str w2 item hns] at h
         have l1 := pop_len hp
         have l2 := pop_len hp2
-        cases arr <;> simp only [okW, Option.some.injEq, reduceCtorEq] at h <;> subst h <;>
-          (simp only [Outcome.w, W.setHeap]; split <;> simp <;> omega)
+        cases hcl : w2.cloneIfStruct item with
+        | none => simp [hcl] at h
+        | some p =>
+          obtain ⟨val, isS, w3⟩ := p
+          simp only [hcl] at h
+          have l3 := cloneIfStruct_len w2 item val isS w3 hcl
+          cases arr <;> simp only [okW, Option.some.injEq, reduceCtorEq] at h <;> subst h <;>
+            (simp only [Outcome.w, W.setHeap]; apply ite_len <;> simp <;> omega)
   | dup =>
     simp only [execS] at h
     split at h <;> simp only [okW, Option.some.injEq, reduceCtorEq] at h
@@ -315,53 +551,58 @@ theorem execS_len (op : SOp) (hc : op.core = true) (w : W) (hok : op.okFor w) :
       obtain ⟨item, w0⟩ := r0
       simp only [hp0] at h
       have l0 := popNoRef_len hp0
-      have hns : ∀ id, item ≠ .str id := by
-        intro id e
-        have : w.st = item :: w0.st := by
-          unfold W.popNoRef at hp0; split at hp0
-          · cases hp0
-          · rename_i x r hst; simp only [Option.some.injEq, Prod.mk.injEq] at hp0; rw [hst, hp0.1, ← hp0.2]
-        apply hok.1 id; rw [this, e]; rfl
-      rw [cloneIfStruct_of_not_str w0 item hns] at h
-      simp only [Bool.false_eq_true, if_false] at h
-      cases hp1 : w0.pop with
-      | none => simp [hp1] at h
-      | some r1 =>
-        obtain ⟨key, w1⟩ := r1
-        simp only [hp1] at h
-        have l1 := pop_len hp1
-        cases hp2 : w1.pop with
-        | none => simp [hp2] at h
-        | some r2 =>
-          obtain ⟨obj, w2⟩ := r2
-          simp only [hp2] at h
-          have l2 := pop_len hp2
-          cases obj with
-          | prim =>
-            simp only at h
-            split at h <;> simp only [okW, Option.some.injEq] at h <;> subst h <;> simp [Outcome.w, l0, l1, l2]
-          | arr id =>
-            simp only at h
-            split at h
-            · simp only [Option.some.injEq] at h; subst h; simp [Outcome.w, l0, l1, l2]
-            · split at h <;> simp only [okW, W.setHeap, Option.some.injEq, reduceCtorEq] at h
-              subst h
-              simp only [Outcome.w, length_setCh]; apply ite_len <;> simp [l0, l1, l2]
-          | str id =>
-            simp only at h
-            split at h
-            · simp only [Option.some.injEq] at h; subst h; simp [Outcome.w, l0, l1, l2]
-            · split at h <;> simp only [okW, W.setHeap, Option.some.injEq, reduceCtorEq] at h
-              subst h
-              simp only [Outcome.w, length_setCh]; apply ite_len <;> simp [l0, l1, l2]
-          | map id =>
-            simp only at h
-            split at h
-            · simp only [okW, W.setHeap, Option.some.injEq] at h
-              subst h
-              simp only [Outcome.w, length_setCh]; apply ite_len <;> simp [l0, l1, l2]
-            · split at h <;> simp only [okW, W.setHeap, Option.some.injEq, reduceCtorEq] at h
-              subst h
-              simp only [Outcome.w, length_setCh]; apply ite_len <;> simp [l0, l1, l2]
+      cases hcl : w0.cloneIfStruct item with
+      | none => simp [hcl] at h
+      | some p =>
+        obtain ⟨cloned, isS, w0c⟩ := p
+        simp only [hcl] at h
+        have lc := cloneIfStruct_len w0 item cloned isS w0c hcl
+        -- the tail never shrinks the heap
+        have tail : ∀ (wt : W) out, setitemTail i cloned wt = some out → wt.c.heap.length ≤ out.w.c.heap.length := by
+          intro wt out h
+          simp only [setitemTail] at h
+          cases hp1 : wt.pop with
+          | none => simp [hp1] at h
+          | some r1 =>
+            obtain ⟨key, w1⟩ := r1
+            simp only [hp1] at h
+            have l1 := pop_len hp1
+            cases hp2 : w1.pop with
+            | none => simp [hp2] at h
+            | some r2 =>
+              obtain ⟨obj, w2⟩ := r2
+              simp only [hp2] at h
+              have l2 := pop_len hp2
+              cases obj with
+              | prim =>
+                simp only at h
+                split at h <;> simp only [okW, Option.some.injEq] at h <;> subst h <;> simp [Outcome.w, l1, l2]
+              | arr id =>
+                simp only at h
+                split at h
+                · simp only [Option.some.injEq] at h; subst h; simp [Outcome.w, l1, l2]
+                · split at h <;> simp only [okW, W.setHeap, Option.some.injEq, reduceCtorEq] at h
+                  subst h
+                  simp only [Outcome.w, length_setCh]; apply ite_len <;> simp [l1, l2]
+              | str id =>
+                simp only at h
+                split at h
+                · simp only [Option.some.injEq] at h; subst h; simp [Outcome.w, l1, l2]
+                · split at h <;> simp only [okW, W.setHeap, Option.some.injEq, reduceCtorEq] at h
+                  subst h
+                  simp only [Outcome.w, length_setCh]; apply ite_len <;> simp [l1, l2]
+              | map id =>
+                simp only at h
+                split at h
+                · simp only [okW, W.setHeap, Option.some.injEq] at h
+                  subst h
+                  simp only [Outcome.w, length_setCh]; apply ite_len <;> simp [l1, l2]
+                · split at h <;> simp only [okW, W.setHeap, Option.some.injEq, reduceCtorEq] at h
+                  subst h
+                  simp only [Outcome.w, length_setCh]; apply ite_len <;> simp [l1, l2]
+        have := tail _ out h
+        cases isS with
+        | false => simp only [Bool.false_eq_true, if_false] at this; omega
+        | true => simp only [if_true, length_add, length_rem] at this; omega
 
 end NeoModel.VmAcct
